@@ -361,11 +361,15 @@ def call_with_builder(builder, op):
 # Every history runs in its OWN fresh interpreter (a long-lived worker would carry the caches of earlier histories);
 # the baseline of an operation is the history consisting of that operation alone.
 
-FPROBE = "<!DOCTYPE html><!--c--><p a=1>x<svg><a xlink:href=u>y</a></svg><br>"
+FPROBE = "<!DOCTYPE html><!--c--><meta charset=utf-8><p a=1>x<svg><a xlink:href=u>y</a></svg><br><a href=javascript:x onclick=y style='color:red;x:y'>z</a>"
 FOPS = ["etree", "etree fullTree=True", "etree fullTree=False", "dom", "etree ns=False", "dom ns=False",
         "etree fullTree=True + etree walker", "dom + dom walker", "html5lib.serialize(tree='etree')",
         "etree implementation=ElementTree fullTree=True", "html5lib.parse default", "etree walker implementation=ElementTree",
-        "html5lib.parseFragment treebuilder=dom"]
+        "html5lib.parseFragment treebuilder=dom",
+        # filters that rewrite the tokens they are handed (sanitizer, meta charset injection, attribute sorting): what the
+        # walker hands out must not be shared between calls
+        "serialize sanitize=True (etree)", "serialize encoding=shift_jis (etree)", "serialize sanitize=True (dom)",
+        "serialize alphabetical_attributes omit_optional_tags=False (etree)"]
 
 
 def factory_op(k):
@@ -403,6 +407,14 @@ def factory_op(k):
     if k == 11:
         p, d = parsed(treebuilders.getTreeBuilder("etree", fullTree=True))
         return toks(treewalkers.getTreeWalker("etree", implementation=ET), d)
+    if k == 13:
+        return html5lib.serialize(html5lib.parse(FPROBE), tree="etree", sanitize=True)
+    if k == 14:
+        return html5lib.serialize(html5lib.parse(FPROBE), tree="etree", encoding="shift_jis").decode("shift_jis")
+    if k == 15:
+        return html5lib.serialize(html5lib.parse(FPROBE, treebuilder="dom"), tree="dom", sanitize=True)
+    if k == 16:
+        return html5lib.serialize(html5lib.parse(FPROBE), tree="etree", alphabetical_attributes=True, omit_optional_tags=False)
     if k == 12:
         d = html5lib.parseFragment("<td>x", container="tr", treebuilder="dom")
         return [type(d).__name__, d.toxml()]
